@@ -1312,6 +1312,121 @@ def gen_check(repo):
            "end LLFree.Gen.C"]
     return "\n".join(out) + "\n"
 
+def unturbofish(src):
+    """rewrite `f::<T>(args)` into `f__g("T", args)` (balanced angle brackets), so that the expression parser sees a call"""
+    out = []; i = 0
+    while True:
+        j = src.find('::<', i)
+        if j < 0: out.append(src[i:]); break
+        depth = 1; k = j + 3
+        while depth:
+            if src[k] == '<': depth += 1
+            elif src[k] == '>': depth -= 1
+            k += 1
+        ty = re.sub(r"\s+", "", src[j + 3:k - 1])
+        m = re.match(r"\s*\(\s*(\))?", src[k:])
+        if not m: raise TranslateError(f"turbofish without call near {src[j:k]!r}")
+        out.append(src[i:j] + '__g("' + ty + '"' + (')' if m.group(1) else ', '))
+        i = k + m.end()
+    return "".join(out)
+
+class MetaEmit:
+    """size computations (`const fn`, usize as Nat): div_ceil, next_multiple_of, size_of/align_of of named types"""
+    def __init__(self, tvar=None):
+        self.tvar = tvar
+    def ty(self, t):
+        return 't' if t == self.tvar else '"' + t + '"'
+    def ex(self, e):
+        k = e[0]
+        if k == 'num': return str(e[1])
+        if k == 'path':
+            n = e[1]
+            if n == 'TREE_FRAMES': return 'tf'
+            if n == 'Bitfield::LEN': return 'hf'
+            if re.fullmatch(r"[a-z_][a-z0-9_]*", n): return n
+            raise TranslateError(f"meta: path {n}")
+        if k == 'field' and e[1] == ('path', 'm'): return 'm_' + e[2]
+        if k == 'bin' and e[1] in ('+', '*'): return f"({self.ex(e[2])} {e[1]} {self.ex(e[3])})"
+        if k == 'call':
+            f, a = e[1], e[2]
+            if f in ('size_of__g', 'align_of__g') and len(a) == 1 and a[0][0] == 'str':
+                return f"(ty.{'size' if f == 'size_of__g' else 'align'} {self.ty(a[0][1])})"
+            if f == 'size_of_slice__g' and len(a) == 2 and a[0][0] == 'str':
+                return f"(sizeOfSlice ty {self.ty(a[0][1])} {self.ex(a[1])})"
+            raise TranslateError(f"meta: call {f}")
+        if k == 'mcall':
+            r, name, a = self.ex(e[1]), e[2], e[3]
+            if name == 'div_ceil': return f"(divCeil {r} {self.ex(a[0])})"
+            if name == 'next_multiple_of': return f"(nextMultipleOf {r} {self.ex(a[0])})"
+            raise TranslateError(f"meta: method .{name}()")
+        raise TranslateError(f"meta: expression {k}")
+
+def gen_meta(repo):
+    """sizes of the three metadata buffers: `size_of_slice` (util.rs), `Trees::metadata_size`, `Metadata::new` +
+    `Lower::metadata_size` (lower.rs), `Locals::metadata_size` (local.rs)"""
+    out = ["/- GENERATED by tools/rs2lean.py from core/src/{util,trees,lower,local}.rs (metadata sizes) — do not edit. -/",
+           "namespace LLFree.Gen.M", "",
+           "/-- `size_of::<T>()` / `align_of::<T>()` of the types named in the size computations (by their source text) -/",
+           "structure TyInfo where\n  size : String → Nat\n  align : String → Nat", "",
+           "/-- `usize::div_ceil` -/", "def divCeil (a b : Nat) : Nat := (a + b - 1) / b",
+           "/-- `usize::next_multiple_of` -/", "def nextMultipleOf (a b : Nat) : Nat := divCeil a b * b", ""]
+    util = read(os.path.join(repo, 'core/src/util.rs'))
+    m = re.search(r"pub const fn size_of_slice<T>\(len: usize\) -> usize\s*\{(.*?)\n\}", util, re.S)
+    if not m: raise TranslateError("size_of_slice not found")
+    e = P(tokenize_str(unturbofish(m.group(1))) ).expr()
+    out += ["/-- `util::size_of_slice::<T>(len)` -/",
+            f"def sizeOfSlice (ty : TyInfo) (t : String) (len : Nat) : Nat :=\n  {MetaEmit('T').ex(e)}\n"]
+    em = MetaEmit()
+    trees = read(os.path.join(repo, 'core/src/trees.rs'))
+    params, body = extract_fn(trees, 'metadata_size')
+    if re.sub(r"\s+", "", params) != "frames:usize": raise TranslateError(f"Trees::metadata_size({params})")
+    ast = P(tokenize_str(unturbofish(re.sub(r"//[^\n]*", "", body)))).block()
+    if ast[1] or ast[2] is None: raise TranslateError("Trees::metadata_size: body")
+    out += ["/-- `Trees::metadata_size(frames)` -/",
+            f"def treesSize (ty : TyInfo) (tf frames : Nat) : Nat :=\n  {em.ex(ast[2])}\n"]
+    lower = read(os.path.join(repo, 'core/src/lower.rs'))
+    params, body = extract_fn(lower, 'new', within='impl Metadata {')
+    if re.sub(r"\s+", "", params) != "frames:usize": raise TranslateError(f"Metadata::new({params})")
+    body = re.sub(r"//[^\n]*", "", body)
+    cut = body.index('Self {')
+    lets = P(tokenize_str(unturbofish(body[:cut] + '}'))).block()
+    names = [(s_[1][1], em.ex(s_[2])) for s_ in lets[1] if s_[0] == 'let']
+    if [n for n, _ in names] != ['bitfield_len', 'table_len']: raise TranslateError(f"Metadata::new lets {names}")
+    struct = block_after(body, 'Self {')[1:-1]
+    fields = {}
+    depth = 0; cur = ''
+    for ch in struct + ',':
+        if ch in '([{<': depth += 1
+        elif ch in ')]}>': depth -= 1
+        if ch == ',' and depth == 0:
+            item = cur.strip(); cur = ''
+            if not item: continue
+            if ':' in item.split('::')[0]:
+                n, ex_ = item.split(':', 1)
+                fields[n.strip()] = em.ex(P(tokenize_str(unturbofish(ex_))).expr())
+            else: fields[item] = item
+        else: cur += ch
+    if sorted(fields) != ['bitfield_len', 'bitfield_size', 'table_len', 'table_size']: raise TranslateError(f"Metadata fields {sorted(fields)}")
+    params, body = extract_fn(lower, 'metadata_size', within="impl<'a> Lower<'a> {")
+    ast = P(tokenize_str(unturbofish(body))).block()
+    if len(ast[1]) != 1 or ast[1][0][0] != 'let' or ast[1][0][1] != ('pvar', 'm') or \
+            ast[1][0][2] != ('call', 'Metadata::new', [('path', 'frames')]):
+        raise TranslateError("Lower::metadata_size: expected `let m = Metadata::new(frames);`")
+    out += ["/-- `Metadata::new(frames)` (bitfield_size, table_size) followed by `Lower::metadata_size(frames)` -/",
+            "def lowerSize (ty : TyInfo) (hf tf frames : Nat) : Nat :=",
+            f"  let bitfield_len := {names[0][1]}", f"  let table_len := {names[1][1]}",
+            f"  let m_bitfield_size := {fields['bitfield_size']}", f"  let m_table_size := {fields['table_size']}",
+            f"  {em.ex(ast[2])}\n"]
+    local = read(os.path.join(repo, 'core/src/local.rs'))
+    params, body = extract_fn(local, 'metadata_size')
+    norm = re.sub(r"\s+", "", body)
+    if norm != "{size_of_slice::<Local>(classing.classes().iter().map(|&(_,count)|count).sum())}":
+        raise TranslateError(f"Locals::metadata_size: {norm}")
+    out += ["/-- `Locals::metadata_size(classing)`; `slots` = the sum of the slot counts of `classing.classes()` -/",
+            "def localsSize (ty : TyInfo) (slots : Nat) : Nat :=\n  (sizeOfSlice ty \"Local\" slots)\n",
+            "end LLFree.Gen.M"]
+    return "\n".join(out) + "\n"
+
 def gen_huge(repo):
     """`impl HugeEntry` (lower.rs): a u16 counter with `u16::MAX` as the marker of a huge allocation"""
     src = read(repo + '/core/src/lower.rs')
@@ -1350,7 +1465,7 @@ def gen_huge(repo):
     out.append("end LLFree.Gen.H")
     return "\n".join(out) + "\n"
 
-GENERATORS = {'Consts': gen_consts, 'Fza': gen_fza, 'Leaf': gen_leaf, 'Tree': gen_tree, 'Local': gen_local, 'Huge': gen_huge, 'Policy': gen_policy, 'Toggle': gen_toggle, 'Check': gen_check}
+GENERATORS = {'Consts': gen_consts, 'Fza': gen_fza, 'Leaf': gen_leaf, 'Tree': gen_tree, 'Local': gen_local, 'Huge': gen_huge, 'Policy': gen_policy, 'Toggle': gen_toggle, 'Check': gen_check, 'Meta': gen_meta}
 
 def write_if_changed(path, txt):
     if os.path.exists(path) and read(path) == txt: return False
